@@ -197,6 +197,15 @@ def final_relabel(repo, res):
                 ok2 = True
     calls = SP.find_calls(f.node, '_update_deblend_label_map')
     ok3 = len(calls) == 1 and [nf(a) for a in calls[0].args] == ['deblend_label_map', 'relabel_map']
+    if not calls:
+        # the helper inlined: for parent, children in deblend_label_map.items(): deblend_label_map[parent] = relabel_map[children]
+        for lp in ast.walk(f.node):
+            if isinstance(lp, ast.For) and nf(lp.iter) == nf_text('deblend_label_map.items()') and isinstance(lp.target, ast.Tuple) \
+                    and len(lp.target.elts) == 2 and all(isinstance(e, ast.Name) for e in lp.target.elts) and len(lp.body) == 1 \
+                    and isinstance(lp.body[0], ast.Assign):
+                k_, v_ = (e.id for e in lp.target.elts)
+                if SP.nf_stmt(lp.body[0]) == f'deblend_label_map[{k_}] = relabel_map[{v_}]':
+                    ok3 = True
     for ok, what in ((ok1, 'relabel map from _create_relabel_map(segm_deblended, start_label=1)'),
                      (ok2, 'relabel map applied to the array'), (ok3, 'relabel map applied to the parent->children map')):
         res.oblige('RELABEL', f'deblend_sources: {what}', ok, nontrivial=True)
